@@ -17,11 +17,11 @@ What contracts can say about it (speclib, both semantics):
                         concatenation the conjunction over the parts.  (`all` distributes over `++`; the
                         definition `forall e in atom. fn(e)` is a model of the uninterpreted predicate,
                         so using it is sound and no axiom is assumed.)
-  alist_parts(L)        the number of atoms (concrete; for `calls`-style clauses)
+  alist_parts_is(L, n)  L is the concatenation of exactly n atoms (no modular result dropped or duplicated)
   alist_same(a, b)      a and b are the same concatenation of the same atoms (concrete True / False)
 
 Hooked from interp.py (`fresh` for the type string `AbsList`, `_comp` for the splice, `truthy`) and
-intrinsics.py (`len`, the three spec functions) on lines marked `# abslist`.
+intrinsics.py (`len`, `dict.get`-independent: the four spec functions) on lines marked `# abslist`.
 """
 from __future__ import annotations
 
@@ -29,7 +29,7 @@ import ast
 
 import z3
 
-from .values import InterpError, Unsupported, simp
+from .values import InterpError, Unsupported, as_z3int, simp
 
 _SORT = None
 
@@ -117,12 +117,15 @@ def s_len(P, v):
     raise Unsupported(f'alist_len of {v!r}')
 
 
-def s_parts(P, v):
+def s_parts_is(P, v, n):
+    """the abstract list is the concatenation of exactly n atoms (n may be symbolic)"""
     if isinstance(v, AbsList):
-        return len(v.parts)
-    if isinstance(v, (list, tuple)):
-        return 0
-    raise Unsupported(f'alist_parts of {v!r}')
+        k = len(v.parts)
+    elif isinstance(v, (list, tuple)) and not v:
+        k = 0
+    else:
+        raise Unsupported(f'alist_parts_is of {v!r}')
+    return (k == n) if isinstance(n, int) else simp(as_z3int(n) == k)
 
 
 def s_same(P, a, b):
